@@ -85,10 +85,16 @@ func etProjects(c *core.Ctx, n, years int) []*gen.Project {
 	for i := 0; i < n; i++ {
 		r := rngFor(c, 800+int64(i))
 		et := 1 + i%5
-		o := gen.Opts{Years: years, MinLayers: 2, MaxLayers: 20, ETMethods: []int{et}, Layouts: []int{1, 0, 2}, ColdWinters: i%3 == 0, PolarLat: i%4 == 1,
-			NoRad: i%5 >= 3 && et != 1, ShallowGW: i%2 == 0, Drought: i%3 == 1, Schedules: i%2 == 1, HeavyRain: i%6 == 0,
+		// polar latitudes (the day length clamps) meet every method that uses the extraterrestrial radiation: 3, 4 and
+		// 2 without a radiation column
+		polar := i%4 == 1 || ((et == 3 || et == 4) && (i/5)%2 == 0) || i%10 == 6
+		o := gen.Opts{Years: years, MinLayers: 2, MaxLayers: 20, ETMethods: []int{et}, Layouts: []int{1, 0, 2}, ColdWinters: i%3 == 0, PolarLat: polar,
+			NoRad: (i%5 >= 3 || i%10 == 6) && et != 1, ShallowGW: i%2 == 0, Drought: i%3 == 1, Schedules: i%2 == 1, HeavyRain: i%6 == 0,
 			Crops: []string{"SM", "WW", "SOY", "ZR", "K", "WRA", "OA", "WG", "SW", "LUP", "WR", "TR", "CCM"}}
 		p := gen.Random(r, fmt.Sprintf("e%d_%d", c.Seed, i), o)
+		if polar && i%4 != 1 {
+			p.Cfg.Lat100 = []int{6700, 6965, 7200, 7800, -6700, -7500}[r.Intn(6)]
+		}
 		if i%3 == 0 {
 			p.Cfg.TAnnual10 = -50 // very cold site: mean temperatures below -22 degrees occur
 			p.Weather.Days = gen.SynthWeather(r, p.Weather.First, p.Weather.First+len(p.Weather.Days)-1, -5, false, true, p.Weather.HasVerd, p.Cfg.ETpot == 5)
@@ -98,7 +104,7 @@ func etProjects(c *core.Ctx, n, years int) []*gen.Project {
 				}
 			}
 		}
-		p.Arms = []string{fmt.Sprintf("etpot=%d cold=%v polar=%v norad=%v", p.Cfg.ETpot, o.ColdWinters, o.PolarLat, o.NoRad)}
+		p.Arms = []string{fmt.Sprintf("etpot=%d cold=%v polar=%v lat=%d norad=%v", p.Cfg.ETpot, o.ColdWinters, o.PolarLat, p.Cfg.Lat100, o.NoRad)}
 		ps = append(ps, p)
 	}
 	return ps
@@ -136,8 +142,17 @@ func tempProjects(c *core.Ctx, n, years int) []*gen.Project {
 	for i := 0; i < n; i++ {
 		r := rngFor(c, 1900+int64(i))
 		o := gen.Opts{Years: years, MinLayers: 1, MaxLayers: 20, ColdWinters: i%2 == 0, BulkExplicit: i%2 == 1, HighCorg: i%3 == 0, ShallowGW: i%3 == 1,
-			Drought: i%4 == 0, HeavyRain: i%4 == 2, NoCrops: i%5 == 0, Stones: i%6 == 1, Peat: i%7 == 6}
+			Drought: i%4 == 0 || i%5 == 2, HeavyRain: i%4 == 2 && i%5 != 2, NoCrops: i%5 == 0, Stones: i%6 == 1, Peat: i%7 == 6}
 		p := gen.Random(r, fmt.Sprintf("t%d_%d", c.Seed, i), o)
+		if i%5 == 2 {
+			// organic horizons (fen peat, up to 40 % organic carbon, loose) through dry spells
+			for k := range p.Soil.Horizons {
+				p.Soil.Horizons[k].Corg100 = 1500 + r.Intn(2500)
+				p.Soil.Horizons[k].BDClass = 1 + r.Intn(2)
+				p.Soil.Horizons[k].Bulk100 = 0
+			}
+			p.Arms = append(p.Arms, "organic")
+		}
 		ps = append(ps, p)
 	}
 	return ps
